@@ -297,6 +297,11 @@ func (b *bufferWriter) expectBody(r *http.Request) bool {
 }
 
 func (b *bufferWriter) Close() error {
+	// A response spilled to disk owns a temporary file that only its reader's Close removes.
+	// If no reader was handed out (over-limit write, HEAD, 204, 304, ...) take it here.
+	if rdr, err := b.buffer.Reader(); err == nil {
+		_ = rdr.Close()
+	}
 	return b.buffer.Close()
 }
 
